@@ -11,7 +11,7 @@
 use crate::c20::{data_dir, model_text, repo_dir};
 use crate::core::*;
 use crate::driver::{panic_site, scratch_dir, take_last_panic};
-use crate::http::{build_app, make_request, poll_call, BodyState, PollResult};
+use crate::http::{build_app, make_request, percent_encode, poll_call, BodyState, PollResult};
 use crate::jsonval::parse_strict;
 use crate::models::*;
 use crate::rng::{derive, Hasher, Rng};
@@ -741,19 +741,6 @@ fn direct_path(text: &str, base: &str, desc: &str, only: Option<(&str, usize)>, 
     }
   }
   Ok("evaluated")
-}
-
-/// Percent-encodes a path segment (everything but unreserved characters).
-fn percent_encode(segment: &str) -> String {
-  let mut out = String::new();
-  for b in segment.bytes() {
-    if b.is_ascii_alphanumeric() || matches!(b, b'-' | b'.' | b'_' | b'~') {
-      out.push(b as char);
-    } else {
-      out.push_str(&format!("%{:02X}", b));
-    }
-  }
-  out
 }
 
 fn http_call(app: &mut Box<dyn crate::http::AppService>, method: &str, path: &str, ct: Option<&str>, body: Vec<u8>) -> Result<crate::http::Resp, String> {
